@@ -171,6 +171,11 @@ impl ExecutorInner {
             ACTIVE_TASKS.set(&self.active_tasks, || {
                 EXECUTOR_CONTEXT.set(&self.context, || {
                     panic::catch_unwind(AssertUnwindSafe(|| loop {
+                        #[cfg(feature = "verif-hooks")]
+                        crate::verif::st_pre_pick();
+                        #[cfg(feature = "verif-hooks")]
+                        crate::verif::st_pick(&mut self.context.queue.borrow_mut());
+
                         let task = match self.context.queue.borrow_mut().pop() {
                             Some(task) => task,
                             None => break,
